@@ -5,9 +5,8 @@ CONSTANTS
   MsgKeys = {"o1", "o2", "a1", "a2", "b1"}
   MaxDec = 1
   ManualMax = 1
-  Policies = {"None", "Toakafa"}
-  InitNames = {"blank", "auto", "mixed"}
-  MaxHist = 5
+  Combos <- CombosAll
+  MaxHist = 4
 INVARIANTS TypeOK NoHeldFromAuthenticated HeldInScope OneDirectionPerSender ForeignPairsUntouched
 PROPERTIES StepOK
 VIEW View
